@@ -423,14 +423,25 @@ const REPO_CHUNK: usize = 4096;
 ///   switched on and off again), in 1/2 of the cases with the cold or the hot config write failing first and the change retried ·
 ///   y `copy` of a snapshot of a second (plain, other key) repository INTO the hot/cold repository · Y `copy` of all snapshots of the
 ///   hot/cold repository into a fresh plain repository (the harness warms the packs up: `copy` has no warm-up of its own)
-const STEP_LETTERS: &str = "bfFpmkixXIJuwNcyY";
+///   B backup that REPEATS a proper non-empty subset of the previous backup's non-empty files and adds new ones (after a forget the
+///   older data pack is partly used, the newer one fully used) ·
+///   r "resize" prune: `repack_cacheable_only(false)`, max_unused 0 %, max_repack unlimited, no repack_all — partly used data packs are
+///   repacked by the first loop of `decide_repack`, fully used packs of a wrong size (all harness packs are too small) are switched to
+///   Repack by its SECOND loop (`resize_packs`); oracle: every pack the plan decided to repack is in the warm-up request
+const STEP_LETTERS: &str = "bfFpmkixXIJuwNcyYBr";
+
+/// coverage counters of the prune plans seen by `exec` in this process (read by `generate` for stats.json):
+/// plans of an `r` prune with a resize repack of a data pack / next to a partly-used repack of a data pack
+pub static RESIZE_PLANS: std::sync::atomic::AtomicU64 = std::sync::atomic::AtomicU64::new(0);
+pub static RESIZE_AND_PARTLY_PLANS: std::sync::atomic::AtomicU64 = std::sync::atomic::AtomicU64::new(0);
+pub static R_PLANS: std::sync::atomic::AtomicU64 = std::sync::atomic::AtomicU64::new(0);
 
 fn random_steps(rng: &mut Rng) -> String {
     let n = 4 + rng.below(4);
     // the first command is a backup (commands on an empty repository are covered by the later steps of other runs)
     let mut v = vec!["b"];
     for _ in 1..n {
-        v.push(*rng.pick(&["b", "b", "b", "b", "f", "F", "p", "m", "m", "k", "i", "x", "X", "I", "J", "u", "w", "c", "c", "y", "y", "Y"]));
+        v.push(*rng.pick(&["b", "b", "b", "b", "f", "F", "p", "m", "m", "k", "i", "x", "X", "I", "J", "u", "w", "c", "c", "y", "y", "Y", "B", "B", "r", "r"]));
     }
     if rng.chance(1, 8) {
         v.insert(0, "N");
@@ -477,14 +488,58 @@ pub fn repo_hist(steps: &str, seed: u64, read_data_check: bool) -> String {
         let what;
         cold.clear_log();
         match kind {
-            'b' => {
+            'b' | 'B' => {
                 what = "backup";
                 let mut entries = Vec::new();
-                // different trees in different backups: directory and file names depend on the step
+                if *kind == 'B' {
+                    // the non-empty files of the previous backup: dropped / repeated unchanged / repeated with the first chunk(s) kept and
+                    // the rest replaced (same path) — so that, once the previous snapshot is forgotten, its data pack is PARTLY used
+                    let prev: Vec<SrcEntry> = sources
+                        .last()
+                        .map(|(_, s)| s.entries.iter().filter(|e| matches!(&e.kind, crate::repo::SrcKind::File(c) if !c.is_empty())).cloned().collect())
+                        .unwrap_or_default();
+                    let n = prev.len();
+                    let mut how: Vec<u64> = (0..n).map(|_| rng.below(4)).collect();
+                    let multi = |e: &SrcEntry| matches!(&e.kind, crate::repo::SrcKind::File(c) if c.len() > REPO_CHUNK);
+                    for (i, e) in prev.iter().enumerate() {
+                        if how[i] >= 2 && !multi(e) {
+                            how[i] = 1;
+                        }
+                    }
+                    if n > 0 && how.iter().all(|h| *h == 0) {
+                        how[0] = 1;
+                    }
+                    if n > 0 && how.iter().all(|h| *h == 1) {
+                        // something of the previous pack must become unused
+                        if let Some(i) = prev.iter().position(multi) {
+                            how[i] = 2;
+                        } else if n > 1 {
+                            how[n - 1] = 0;
+                        }
+                    }
+                    for (mut e, hw) in prev.into_iter().zip(how) {
+                        match hw {
+                            0 => continue,
+                            1 => {}
+                            _ => {
+                                if let crate::repo::SrcKind::File(c) = &mut e.kind {
+                                    let keep = REPO_CHUNK * (1 + rng.below(((c.len() - 1) / REPO_CHUNK) as u64) as usize);
+                                    let tail = rng.bytes(c.len() - keep);
+                                    c.truncate(keep);
+                                    c.extend_from_slice(&tail);
+                                }
+                                e.mtime_s += 1000 + step as i64;
+                                e.ctime_s = e.mtime_s;
+                            }
+                        }
+                        entries.push(e);
+                    }
+                }
                 for i in 0..1 + rng.below(4) {
                     let len = *rng.pick(&[0usize, 10, 3000, 9000, 70_000]);
                     let dir = format!("d{}", if rng.chance(1, 2) { i % 2 } else { step as u64 });
-                    let mut e = SrcEntry::file(&[dir.as_bytes(), format!("f{i}").as_bytes()], &rng.bytes(len));
+                    let name = if *kind == 'B' { format!("n{step}f{i}") } else { format!("f{i}") };
+                    let mut e = SrcEntry::file(&[dir.as_bytes(), name.as_bytes()], &rng.bytes(len));
                     e.mtime_s += 100 * (step as i64 + 1) + i as i64;
                     e.ctime_s = e.mtime_s;
                     entries.push(e);
@@ -514,22 +569,62 @@ pub fn repo_hist(steps: &str, seed: u64, read_data_check: bool) -> String {
                     sources.retain(|(id, _)| !ids.iter().any(|x| **x == *id));
                 }
             }
-            'p' | 'm' | 'k' => {
+            'p' | 'm' | 'k' | 'r' => {
                 what = match kind {
                     'p' => "prune",
                     'm' => "prune-marking",
+                    'r' => "prune-resize",
                     _ => "prune-keep-delete-0",
                 };
                 // repack everything that can be repacked: reads data packs from the cold store
                 // (on a hot/cold repository `repack_cacheable_only` defaults to true: data packs would never be repacked and
                 // the cold store never read; switch it off in most runs)
-                let mut popts = PruneOptions::default().repack_all(rng.chance(2, 3)).instant_delete(*kind == 'p').repack_cacheable_only(!rng.chance(3, 4));
+                let mut popts = if *kind == 'r' {
+                    // every partly used pack is repacked whatever the unused share (max_unused 0 %), no limit on the repack size, no
+                    // repack_all: fully used packs are candidates only for their size (`RepackReason::SizeMismatch`) and are decided by
+                    // the second loop of `decide_repack`; 1/8: no_resize (they are kept)
+                    PruneOptions::default()
+                        .repack_cacheable_only(false)
+                        .max_unused(rustic_core::LimitOption::Percentage(0))
+                        .max_repack(rustic_core::LimitOption::Unlimited)
+                        .instant_delete(rng.chance(1, 2))
+                        .no_resize(rng.chance(1, 8))
+                } else {
+                    PruneOptions::default().repack_all(rng.chance(2, 3)).instant_delete(*kind == 'p').repack_cacheable_only(!rng.chance(3, 4))
+                };
                 if *kind == 'k' {
                     popts.keep_delete = rustic_core::jiff::Span::new();
                 }
                 let Ok(plan) = repo.prune_plan(&popts) else { return format!("oracle-fail:prune-plan-step{step}") };
+                // the packs the plan decided to repack (both loops of `decide_repack`), read off the finished plan
+                let to_repack: Vec<Id> =
+                    rustic_core::verif::prune::plan_decisions(&plan).iter().filter(|d| d.to_do == "Repack").map(|d| Id::from(*d.pack)).collect();
+                if *kind == 'r' {
+                    // coverage: data packs repacked although fully used (= resized) / partly used ones
+                    let (mut resized, mut partly) = (0u64, 0u64);
+                    for (k, v) in &plan.stats.debug.0 {
+                        if format!("{:?}", k.todo) == "Repack" && format!("{:?}", k.blob_type) == "Data" {
+                            if format!("{:?}", k.status).contains("HasUnusedBlobs") { partly += v.packs } else { resized += v.packs }
+                        }
+                    }
+                    use std::sync::atomic::Ordering::Relaxed;
+                    _ = R_PLANS.fetch_add(1, Relaxed);
+                    _ = RESIZE_PLANS.fetch_add(u64::from(resized > 0), Relaxed);
+                    _ = RESIZE_AND_PARTLY_PLANS.fetch_add(u64::from(resized > 0 && partly > 0), Relaxed);
+                    if std::env::var_os("VERIF_C16_SHOW_STEPS").is_some() {
+                        eprintln!("c16 prune-resize step {step}: data packs resized {resized}, partly used repacked {partly}, to repack {}", to_repack.len());
+                    }
+                }
                 cold.inner.lock().unwrap().warm.clear();
-                if repo.prune(&popts, plan).is_err() {
+                let res = repo.prune(&popts, plan);
+                // every pack with decision Repack — partly used, to compress, or only resized — is in the warm-up request of the command
+                if strict {
+                    let g = cold.inner.lock().unwrap();
+                    if to_repack.iter().any(|id| !g.warm_log.iter().any(|(t, w)| *t == FileType::Pack && w == id)) {
+                        return format!("oracle-fail:pack-to-repack-not-in-warm-up-request-during-{what}");
+                    }
+                }
+                if res.is_err() {
                     return format!("oracle-fail:{what}-fails-on-cold-strict-store-step{step}");
                 }
             }
@@ -915,6 +1010,326 @@ pub fn restore_to<S: rustic_core::IndexedFull>(repo: &Repository<S>, snap: &Snap
     }
 }
 
+// ------------------------------------------------------------- warm-up of every file type (keys, config, snapshots, index, packs)
+
+#[derive(Clone, Copy, Debug, PartialEq, Eq)]
+enum ColdEv {
+    /// `warm_up()` request
+    Warm,
+    /// refused read of the shape `WarmUpAccessBackend::warm_up` issues (`read_partial(.., offset 0, length 1)`) — in the `by_access`
+    /// mode this IS the warm-up request: the file is readable afterwards
+    Access,
+    /// any other refused read: a real read of a file that was not warmed up on this store
+    Refused,
+    Served,
+}
+
+type AllColdState = (BTreeSet<(u8, Id)>, Vec<(ColdEv, FileType, Id)>);
+
+/// A cold store that is cold for EVERY file type.  `by_access`: it has no warm-up call of its own (`needs_warm_up()` = false); the
+/// first read of a file is refused and triggers its warm-up, later reads are served (what `RepositoryOptions::warm_up` is made for).
+/// Otherwise: `needs_warm_up()` = true, `warm_up()` makes a file readable, reads of other files are refused.
+#[derive(Clone, Debug)]
+struct AllCold {
+    be: MemBackend,
+    by_access: bool,
+    st: Arc<std::sync::Mutex<AllColdState>>,
+}
+
+impl AllCold {
+    fn gate(&self, tpe: FileType, id: &Id, probe: bool) -> rustic_core::RusticResult<()> {
+        if self.be.get(tpe, id).is_none() {
+            return Err(rustic_core::RusticError::new(rustic_core::ErrorKind::Backend, "no such file"));
+        }
+        let mut g = self.st.lock().unwrap();
+        let key = (crate::repo::ft_idx(tpe), *id);
+        if g.0.contains(&key) {
+            g.1.push((ColdEv::Served, tpe, *id));
+            return Ok(());
+        }
+        if self.by_access {
+            _ = g.0.insert(key);
+        }
+        g.1.push((if probe { ColdEv::Access } else { ColdEv::Refused }, tpe, *id));
+        Err(rustic_core::RusticError::new(rustic_core::ErrorKind::Backend, "file is not warmed up"))
+    }
+    /// forget all warm-ups and the event log (between commands)
+    fn reset(&self) {
+        let mut g = self.st.lock().unwrap();
+        g.0.clear();
+        g.1.clear();
+    }
+    /// a read this store refused that was not a warm-up access (by_access) / any refused read (native warm-up)
+    fn violation(&self) -> Option<FileType> {
+        let g = self.st.lock().unwrap();
+        g.1.iter().find(|(e, _, _)| *e == ColdEv::Refused || (!self.by_access && *e == ColdEv::Access)).map(|(_, t, _)| *t)
+    }
+    fn served(&self, tpe: FileType) -> usize {
+        self.st.lock().unwrap().1.iter().filter(|(e, t, _)| *e == ColdEv::Served && *t == tpe).count()
+    }
+}
+
+impl ReadBackend for AllCold {
+    fn location(&self) -> String {
+        self.be.location()
+    }
+    fn list_with_size(&self, tpe: FileType) -> rustic_core::RusticResult<Vec<(Id, u32)>> {
+        self.be.list_with_size(tpe)
+    }
+    fn read_full(&self, tpe: FileType, id: &Id) -> rustic_core::RusticResult<Bytes> {
+        self.gate(tpe, id, false)?;
+        self.be.read_full(tpe, id)
+    }
+    fn read_partial(&self, tpe: FileType, id: &Id, cacheable: bool, offset: u32, length: u32) -> rustic_core::RusticResult<Bytes> {
+        self.gate(tpe, id, offset == 0 && length == 1)?;
+        self.be.read_partial(tpe, id, cacheable, offset, length)
+    }
+    fn warmup_path(&self, tpe: FileType, id: &Id) -> String {
+        self.be.warmup_path(tpe, id)
+    }
+    fn needs_warm_up(&self) -> bool {
+        !self.by_access
+    }
+    fn warm_up(&self, tpe: FileType, id: &Id) -> rustic_core::RusticResult<()> {
+        let mut g = self.st.lock().unwrap();
+        g.1.push((ColdEv::Warm, tpe, *id));
+        if !self.by_access {
+            _ = g.0.insert((crate::repo::ft_idx(tpe), *id));
+        }
+        Ok(())
+    }
+}
+
+impl WriteBackend for AllCold {
+    fn create(&self) -> rustic_core::RusticResult<()> {
+        self.be.create()
+    }
+    fn write_bytes(&self, tpe: FileType, id: &Id, cacheable: bool, content: BytesList) -> rustic_core::RusticResult<()> {
+        self.be.write_bytes(tpe, id, cacheable, content)
+    }
+    fn remove(&self, tpe: FileType, id: &Id, cacheable: bool) -> rustic_core::RusticResult<()> {
+        self.be.remove(tpe, id, cacheable)
+    }
+}
+
+/// a key file for `pw` holding the repository's master key (cheap scrypt parameters), stored in both stores
+fn plant_key(h: &RepoHandle, hot: &MemBackend, pw: &str, rng: &mut Rng) -> Option<Id> {
+    use rustic_core::verif::aespoly1305::CryptoKey;
+    use sha2::{Digest, Sha256};
+    let mut kf = rustic_core::repofile::KeyFile { hostname: None, username: None, created: None, kdf: "scrypt".into(), n: 16, r: 1, p: 1, data: vec![], salt: rng.bytes(64) };
+    let k = kf.kdf_key(&pw).ok()?;
+    kf.data = k.encrypt_data(&serde_json::to_vec(&h.key).ok()?).ok()?;
+    let json = serde_json::to_vec(&kf).ok()?;
+    let id = Id::new(Sha256::digest(&json).into());
+    h.be.put_raw(FileType::Key, id, Bytes::from(json.clone()));
+    hot.put_raw(FileType::Key, id, Bytes::from(json));
+    Some(id)
+}
+
+/// `c16 access <seed>`: a hot/cold repository with 1-3 backups (optionally forget + a marking prune: tree packs under
+/// `packs_to_delete`) and 0-2 password keys; the hot store loses its keys / snapshots / index files / tree packs / everything incl. the
+/// config file / a random subset; the cold store is cold for EVERY file type (`AllCold`), in 3/4 of the cases warmed up by access
+/// (`RepositoryOptions::warm_up(true)`, `needs_warm_up()` = false), else through its own `warm_up()`.  Then, with the master key or a
+/// password: `open_only_cold` (+ `init_hot` when the hot config is lost) → `repair_hotcold_except_packs` → `open` →
+/// `repair_hotcold_packs` → check → restore of the newest snapshot.  Oracles: no read the cold store refused other than the warm-up
+/// accesses themselves (= every file served by the cold store was warmed up ON THE COLD STORE first), the commands succeed, the hot
+/// store is recreated byte for byte (config: exactly one file), the cold store is unchanged, check is clean, restored content == source.
+fn access(seed: u64) -> String {
+    use rustic_core::Credentials;
+    let mut rng = Rng::new(seed);
+    let cold = MemBackend::named("cold");
+    let hot = MemBackend::named("hot");
+    let cfg = ConfigOptions::default().set_chunker(rustic_core::repofile::Chunker::FixedSize).set_chunk_size(bytesize::ByteSize(REPO_CHUNK as u64));
+    let Ok((h, _)) = RepoHandle::init(cold.clone(), Some(hot.clone()), &cfg) else { return "err:init".into() };
+    let mut last: Option<(SnapshotFile, MemSource)> = None;
+    let nb = 1 + rng.below(3);
+    for b in 0..nb {
+        let mut entries = Vec::new();
+        for i in 0..1 + rng.below(3) {
+            let len = *rng.pick(&[0usize, 10, 3000, 9000, 30_000]);
+            let mut e = SrcEntry::file(&[format!("a{b}").as_bytes(), format!("f{i}").as_bytes()], &rng.bytes(len));
+            e.mtime_s += 100 * (b as i64 + 1) + i as i64;
+            e.ctime_s = e.mtime_s;
+            entries.push(e);
+        }
+        let src = MemSource::new(entries);
+        match crate::repo::backup(&h, &src, &BackupOptions::default(), SnapshotFile::default()) {
+            Ok(s) => last = Some((s, src)),
+            Err(_) => return "oracle-fail:backup".into(),
+        }
+    }
+    if nb > 1 && rng.chance(1, 3) {
+        // forget the oldest snapshot + a prune that only marks: its tree pack stays in both stores, listed under `packs_to_delete`
+        let Ok(repo) = h.open() else { return "oracle-fail:open".into() };
+        let Ok(mut snaps) = repo.get_all_snapshots() else { return "oracle-fail:snapshots".into() };
+        snaps.sort_by_key(|s| s.time.clone());
+        if repo.delete_snapshots(&[snaps[0].id]).is_err() {
+            return "oracle-fail:forget".into();
+        }
+        let Ok(repo) = h.open() else { return "oracle-fail:open".into() };
+        let popts = PruneOptions::default();
+        let Ok(plan) = repo.prune_plan(&popts) else { return "oracle-fail:prune-plan".into() };
+        if repo.prune(&popts, plan).is_err() {
+            return "oracle-fail:prune".into();
+        }
+    }
+    let nkeys = rng.below(3);
+    for k in 0..nkeys {
+        if plant_key(&h, &hot, &format!("pw{k}"), &mut rng).is_none() {
+            return "oracle-fail:plant-key".into();
+        }
+    }
+    let by_access = !rng.chance(1, 4);
+    let creds = if nkeys > 0 && rng.chance(2, 3) { Credentials::password(format!("pw{}", rng.below(nkeys))) } else { Credentials::Masterkey(h.key.clone()) };
+    let mode = if by_access { "warm-up-by-access" } else { "native-warm-up" };
+    // ---- damage to the hot store
+    let hot_before = hot.store();
+    let cold_before = cold.store();
+    let damage = rng.below(7);
+    for (t, id) in hot_before.keys() {
+        let lose = match damage {
+            0 => true,                                  // everything, also the config file
+            1 => *t != 0,                               // everything but the config file
+            2 => *t == 2,                               // keys
+            3 => *t == 3,                               // snapshots
+            4 => *t == 1,                               // index files
+            5 => *t == 4,                               // tree packs
+            _ => *t != 0 && rng.chance(1, 2),
+        };
+        if lose {
+            hot.del_raw(FILE_TYPES[*t as usize], id);
+        }
+    }
+    let spy = AllCold { be: cold.clone(), by_access, st: Arc::default() };
+    let bes = RepositoryBackends::new(Arc::new(spy.clone()), Some(Arc::new(hot.clone())));
+    let opts = RepoHandle::default_opts().warm_up(by_access);
+    let tname = |t: FileType| crate::repo::ft_name(t);
+    // after every command: what the cold store refused
+    macro_rules! step {
+        ($cmd:expr, $res:expr) => {{
+            let r = $res;
+            if let Some(t) = spy.violation() {
+                return format!("oracle-fail:cold-{}-read-not-warmed-up-on-the-cold-store-during-{}-{mode}", tname(t), $cmd);
+            }
+            match r {
+                Ok(v) => v,
+                Err(_) => return format!("oracle-fail:{}-fails-{mode}", $cmd),
+            }
+        }};
+    }
+    let new_repo = || Repository::new(&opts, &bes);
+    let hot_config_lost = hot.ids(FileType::Config).is_empty();
+    if hot_config_lost || rng.chance(1, 2) {
+        let Ok(r0) = new_repo() else { return "oracle-fail:new".into() };
+        let r = step!("open-only-cold", r0.open_only_cold(&creds));
+        // the config file was served by the cold store (and a key file, if a password was used)
+        if spy.served(FileType::Config) == 0 || (matches!(creds, Credentials::Password(_)) && spy.served(FileType::Key) == 0) {
+            return "oracle-fail:open-only-cold-did-not-read-the-cold-store".into();
+        }
+        spy.reset();
+        if hot_config_lost {
+            step!("init-hot", r.init_hot());
+            spy.reset();
+        }
+    }
+    let Ok(r0) = new_repo() else { return "oracle-fail:new".into() };
+    step!("repair-hotcold-except-packs", r0.repair_hotcold_except_packs(false));
+    spy.reset();
+    let Ok(r0) = new_repo() else { return "oracle-fail:new".into() };
+    let repo = step!("open", r0.open(&creds));
+    spy.reset();
+    step!("repair-hotcold-packs", repo.repair_hotcold_packs(false));
+    spy.reset();
+    // ---- the hot store is back byte for byte (the config file is written anew by init_hot: exactly one), the cold store unchanged
+    let hot_after = hot.store();
+    for (k, v) in &hot_before {
+        if k.0 != 0 && hot_after.get(k) != Some(v) {
+            return format!("oracle-fail:hot-{}-file-not-recreated-{mode}", crate::repo::ft_name(FILE_TYPES[k.0 as usize]));
+        }
+    }
+    if hot_after.keys().filter(|k| k.0 != 0).count() != hot_before.keys().filter(|k| k.0 != 0).count() {
+        return "oracle-fail:extra-file-in-hot-after-repair".into();
+    }
+    if hot.ids(FileType::Config).len() != 1 {
+        return "oracle-fail:not-exactly-one-hot-config-file-after-repair".into();
+    }
+    if cold.store() != cold_before {
+        return "oracle-fail:repair-changed-the-cold-store".into();
+    }
+    let res = step!("check", repo.check(CheckOptions::default()));
+    if res.0.iter().any(|(l, _)| format!("{l:?}") == "Error") {
+        return format!("oracle-fail:check-errors-after-repair-{mode}");
+    }
+    spy.reset();
+    // ---- restore of the newest snapshot: data packs come from the cold store, after the command's own warm-up
+    if let Some((snap, src)) = &last {
+        let repo = step!("index", repo.to_indexed());
+        spy.reset();
+        let tmp = tempfile::tempdir().expect("tempdir");
+        let dest = tmp.path().join("dest");
+        let r = restore_to(&repo, snap, &dest);
+        if let Some(t) = spy.violation() {
+            return format!("oracle-fail:cold-{}-read-not-warmed-up-on-the-cold-store-during-restore-{mode}", tname(t));
+        }
+        if let Some(e) = r {
+            return format!("oracle-fail:restore-{e}-{mode}");
+        }
+        for e in &src.entries {
+            if let crate::repo::SrcKind::File(c) = &e.kind {
+                if std::fs::read(path_in(&dest, e)).ok().as_deref() != Some(c.as_slice()) {
+                    return "oracle-fail:restored-content-differs".into();
+                }
+            }
+        }
+    }
+    "ok".into()
+}
+
+/// `c16 warmroute <n> <w> <h> <type>`: where ONE warm-up request of the real `Repository::warm_up` goes.  `n` = the cold store's own
+/// `needs_warm_up()`, `w` = `RepositoryOptions::warm_up` (warm-up by access), `h` = with a hot store; type index / key / snapshot /
+/// pack.  Observation: the events the two stores saw (`cold:read`, `cold:warm`, `hot:read`, `hot:warm`), `-` = none — compared
+/// with `WarmUp.warmUpRepo (repoBe n w h)` of the Lean model.
+fn warmroute(n: &str, w: &str, h: &str, t: &str) -> String {
+    use rustic_core::repofile::{IndexId, KeyId, PackId, SnapshotId};
+    let flag = |s: &str| match s {
+        "0" => Some(false),
+        "1" => Some(true),
+        _ => None,
+    };
+    let (Some(n), Some(w), Some(h)) = (flag(n), flag(w), flag(h)) else { return "bad-op".into() };
+    let tpe = match t {
+        "index" => FileType::Index,
+        "key" => FileType::Key,
+        "snapshot" => FileType::Snapshot,
+        "pack" => FileType::Pack,
+        _ => return "bad-op".into(),
+    };
+    let cold = MemBackend::named("cold");
+    let hot = MemBackend::named("hot");
+    let id = label_id(7);
+    cold.put_raw(tpe, id, Bytes::from_static(b"0123456789"));
+    hot.put_raw(tpe, id, Bytes::from_static(b"0123456789"));
+    cold.set_cold(n);
+    let bes = RepositoryBackends::new(Arc::new(cold.clone()), h.then(|| Arc::new(hot.clone()) as Arc<dyn WriteBackend>));
+    let Ok(repo) = Repository::new(&RepoHandle::default_opts().warm_up(w), &bes) else { return "err:new".into() };
+    let res = match tpe {
+        FileType::Index => repo.warm_up(std::iter::once(IndexId::from(id))),
+        FileType::Key => repo.warm_up(std::iter::once(KeyId::from(id))),
+        FileType::Snapshot => repo.warm_up(std::iter::once(SnapshotId::from(id))),
+        _ => repo.warm_up(std::iter::once(PackId::from(id))),
+    };
+    if res.is_err() {
+        return "err:warm-up".into();
+    }
+    let mut ev: Vec<&str> = Vec::new();
+    for (be, rd, wm) in [(&cold, "cold:read", "cold:warm"), (&hot, "hot:read", "hot:warm")] {
+        let g = be.inner.lock().unwrap();
+        ev.extend(g.reads.iter().filter(|(t, i, _)| *t == tpe && *i == id).map(|_| rd));
+        ev.extend(g.warm_log.iter().filter(|(t, i)| *t == tpe && *i == id).map(|_| wm));
+    }
+    if ev.is_empty() { "-".into() } else { ev.join("+") }
+}
+
 pub fn exec(t: &[&str]) -> String {
     let t: Vec<String> = t.iter().map(|s| (*s).to_string()).collect();
     guarded(move || match t.iter().map(String::as_str).collect::<Vec<_>>().as_slice() {
@@ -924,6 +1339,8 @@ pub fn exec(t: &[&str]) -> String {
         ["repo", seed] => seed.parse::<u64>().map_or("bad-op".into(), |s| repo_level(s, false)),
         ["repo-hist", steps, seed] => seed.parse::<u64>().map_or("bad-op".into(), |s| repo_hist(steps, s, false)),
         ["repo-read-data", seed] => seed.parse::<u64>().map_or("bad-op".into(), |s| repo_level(s, true)),
+        ["access", seed] => seed.parse::<u64>().map_or("bad-op".into(), access),
+        ["warmroute", n, w, h, t] => warmroute(n, w, h, t),
         _ => "bad-op".into(),
     })
 }
@@ -1141,6 +1558,63 @@ pub fn generate(thorough: bool, rng: &mut Rng, ops: &mut Vec<String>, stats: &mu
         }
         stats.hit("repo-hist.copy-and-config");
         ops.push(format!("c16 repo-hist {} {}", st.join(","), rng.below(1 << 32)));
+    }
+    // directed histories for the SECOND loop of `decide_repack` (resize repacks): a backup, a backup repeating part of it (+ new files),
+    // optionally more, forget, then the `r` prune (max_unused 0 %, max_repack unlimited, repack_cacheable_only off): the older data
+    // pack is partly used, the newer one fully used and too small; afterwards further commands
+    let n_rs = if thorough { 800 } else { 28 };
+    for k in 0..n_rs {
+        let mut st: Vec<&str> = Vec::new();
+        if rng.chance(1, 10) {
+            st.push("N");
+        }
+        st.push("b");
+        st.push("B");
+        for _ in 0..rng.below(3) {
+            st.push("B");
+        }
+        st.push(*rng.pick(&["f", "f", "f", "F"]));
+        st.push("r");
+        for _ in 0..rng.below(3) {
+            st.push(*rng.pick(&["B", "F", "r", "r", "p", "i", "x", "k"]));
+        }
+        stats.hit("repo-hist.resize-prune");
+        let seed = rng.below(1 << 32);
+        let steps = st.join(",");
+        // coverage probe (the first cases only: the case is run once more here): does the plan of the `r` prune really hold a resize
+        // repack of a data pack next to a partly-used repack?
+        if k < 10 {
+            use std::sync::atomic::Ordering::Relaxed;
+            let before = (R_PLANS.load(Relaxed), RESIZE_PLANS.load(Relaxed), RESIZE_AND_PARTLY_PLANS.load(Relaxed));
+            let s2 = steps.clone();
+            _ = crate::util::guarded(move || repo_hist(&s2, seed, false));
+            stats.hit("resize-probe.histories");
+            stats.add("resize-probe.r-prune-plans", R_PLANS.load(Relaxed) - before.0);
+            stats.add("resize-probe.r-prune-plans-with-resize-repack-of-a-data-pack", RESIZE_PLANS.load(Relaxed) - before.1);
+            stats.add("resize-probe.r-prune-plans-with-resize-repack-next-to-partly-used-repack", RESIZE_AND_PARTLY_PLANS.load(Relaxed) - before.2);
+            if RESIZE_AND_PARTLY_PLANS.load(Relaxed) > before.2 {
+                stats.hit("resize-probe.histories-with-resize-repack-next-to-partly-used-repack");
+            }
+        }
+        ops.push(format!("c16 repo-hist {steps} {seed}"));
+    }
+    // warm-up of ALL file types: hot store lost (keys / snapshots / index files / tree packs / everything incl. the config / a random
+    // subset), cold store refusing every read of a file that was not warmed up — by access (`RepositoryOptions::warm_up`) or natively
+    let n_acc = if thorough { 1500 } else { 60 };
+    for _ in 0..n_acc {
+        stats.hit("access");
+        ops.push(format!("c16 access {}", rng.below(1 << 32)));
+    }
+    // where a warm-up request goes: every combination of the store's own needs_warm_up x opts.warm_up x hot store x file type
+    for n in 0..2 {
+        for w in 0..2 {
+            for h in 0..2 {
+                for t in ["index", "key", "snapshot", "pack"] {
+                    stats.hit("warmroute");
+                    ops.push(format!("c16 warmroute {n} {w} {h} {t}"));
+                }
+            }
+        }
     }
     // DESIGN §7 #15 (known finding): check --read-data on a warmed-up hot/cold repository
     stats.hit("repo-level.read-data");
